@@ -176,10 +176,15 @@ class C19(Check):
                             if len(xd) >= 2 and off == c["offs"][0]:
                                 # structured data: one channel of the last sample mode is identically zero (zero padding, a dead sensor)
                                 gs.append({"est": "plsr", "n": n, "xd": list(xd), "yd": list(yd), "nc": nc, "off": off, "zero_channel": True})
+        # a size class of its own: more samples than any plausible internal block / sub-sampling threshold (600), one and two responses
+        for yd in ((), (2,)):
+            gs.append({"est": "plsr", "n": 600, "xd": [3, 2], "yd": list(yd), "nc": 1, "off": c["offs"][0], "many": True})
         # simplest groups first (the first stored example of a violation is then a small one); the pool hands out
         # groups one at a time, so the tail is bounded by the single heaviest group
         def cost(g):
             base = g["n"] * int(np.prod(g["xd"]))
+            if g.get("many"):
+                return base * 4
             if g["est"] == "plsr":
                 return base * (math.factorial(g["n"]) if (g["n"] <= 4 or tier != "quick") else 20) * g["nc"] / 20.0
             if g["est"] == "tucker":
@@ -240,6 +245,11 @@ class C19(Check):
                 yield dict(base, xf=["xshift", k])
             for k in c["yshifts"]:
                 yield dict(base, xf=["yshift", k])
+            if group.get("many"):
+                half = n // 2
+                for p in (list(range(half, n)) + list(range(half)), list(range(n))[::-1], list(range(1, n)) + [0]):
+                    yield dict(base, xf=["perm", p])
+                return
             for p in perms_for(n, tier):
                 yield dict(base, xf=["perm", p])
 
